@@ -1,6 +1,7 @@
-(* HeapLinkerSim.v — observational equality inside BaseLinker.copy (property C11): every submodel of the copy is
-   observationally equal to the submodel it was copied from, at every depth, in the heap BaseLinker.copy leaves.
-   (The equality of the linker's own entries is checked by the correspondence only: see the report.) *)
+(* HeapLinkerSim.v — observational equality inside BaseLinker.copy (property C11), the part that is proved: the dict
+   comprehension {k: copy.deepcopy(v) for k, v in submodels.items()} yields, key by key, submodels that are observationally
+   equal to the ones they were copied from, at every depth.  NOT proved (checked by the correspondence K only): that the
+   __init__ of the new linker leaves these copies alone and that the linker's own entries are equal. *)
 From Coq Require Import ZArith List Bool Lia.
 Import ListNotations.
 Require Import PyBase Heap HeapFacts HeapFrame HeapCopy HeapSim.
@@ -21,18 +22,6 @@ Proof.
     destruct (cell_get k (ocells o1)), (cell_get k (ocells o2)); auto. eapply IH; eauto.
   - induction S as [|c1 c2 r1 r2 [Hk Hs] Hr IHr]; constructor; auto. split; auto. eapply IH; eauto.
 Qed.
-
-(* the hypotheses of copy_sim for every submodel of a dict *)
-Definition submodels_copyable (K : consts) (h : heap) (cs : list (Z * val)) : Prop :=
-  forall k l, In (k, VR l) cs ->
-    exists o, nth_error h l = Some o /\ NoDup (map fst (ocells o)) /\
-              (forall x, In x (copy_fresh_keys K h l) -> In x (map fst (ocells o))).
-
-Lemma copy_fresh_keys_agree K h h' l :
-  wf h -> (l < length h)%nat ->
-  (forall x, (x < length h)%nat -> nth_error h' x = nth_error h x) -> ext h h' ->
-  True.
-Proof. trivial. Qed.
 
 (* copy_submodels: key by key the same dict, every value observationally equal to its original — provided each submodel
    satisfies the hypotheses of copy_sim IN THE HEAP IN WHICH IT IS COPIED (the heap grows while the dict is walked) *)
@@ -68,63 +57,3 @@ Proof.
     constructor; [|exact IH]. split; [reflexivity|]. intros n. cbn [snd].
     apply (sim_agree n h1 h'); [exact U2 | apply S1].
 Qed.
-
-(* in the heap BaseLinker.copy returns: the submodels dict of the copy holds, key by key, observationally equal submodels *)
-Theorem linker_copy_submodels_sim K h r h' r' o d od :
-  linker_copy_M K h r = Some (h', r') -> wf h -> nth_error h r = Some o ->
-  cell_get (A N_submodels) (ocells o) = Some (VR d) -> nth_error h d = Some od ->
-  submodels_copyable_seq K h (ocells od) ->
-  exists h1 cs', copy_submodels K h (ocells od) = Some (h1, cs') /\
-    nth_error h' (length h1) = Some (mkObj KDict cs') /\
-    Forall2 (fun c c' => fst c = fst c' /\ forall n, sim n h' (snd c) (snd c')) (ocells od) cs'.
-Proof.
-  intros H W Ho Hsub Hd SC. pose proof H as Hc. unfold linker_copy_M in H. rewrite Ho, Hsub in H.
-  destruct (okind o) as [| | | |c|] eqn:Kd; try discriminate.
-  rewrite Hd in H.
-  destruct (copy_submodels K h (ocells od)) as [[h1 cs']|] eqn:Cs; [|discriminate].
-  set (h2 := h1 ++ [mkObj KDict cs']) in *.
-  destruct (init_M h2 c K (linker_iargs h2 K (length h1) (k_linker_name K))) as [[h3 r3] ok] eqn:I.
-  cbn [fst snd] in H. destruct ok; [|discriminate].
-  destruct (dc_entries h3 (filter (fun kv => negb (fst kv =? A N_submodels)) (ocells o))) as [[h4 es]|] eqn:E; [|discriminate].
-  destruct (nth_error h4 r3) as [o'|] eqn:Eo'; [|discriminate].
-  inversion H; subst; clear H.
-  set (N := length h).
-  destruct (copy_submodels_spec K N _ _ _ _ Cs W ltac:(unfold N; lia) (closed_above_len h)) as (W1 & C1 & L1 & K1 & U1).
-  fold N in L1.
-  assert (W2 : wf h2).
-  { apply wf_snoc; auto. intros l Hl. assert (N <= l < length h1)%nat by (eapply cells_ok_refs; eauto). lia. }
-  assert (C2 : closed_above N h2).
-  { apply closed_above_snoc; auto. intros l Hl. assert (N <= l < length h1)%nat by (eapply cells_ok_refs; eauto). lia. }
-  assert (L2 : length h2 = S (length h1)) by (unfold h2; rewrite app_length; simpl; lia).
-  assert (IA : iargs_above N (h2 ++ [mkObj (KCont c) []]) (linker_iargs h2 K (length h1) (k_linker_name K))).
-  { apply linker_iargs_above. rewrite app_length; simpl. lia. }
-  (* everything below length h2 is untouched by __init__ (region N := length h2 is not available: the instance refers to the
-     dict); use the frame of the init actions instead: objects below N... we only need the objects below length h2 *)
-  assert (IA2 : iargs_above 0 (h2 ++ [mkObj (KCont c) []]) (linker_iargs h2 K (length h1) (k_linker_name K))).
-  { apply linker_iargs_above. rewrite app_length; simpl. lia. }
-  destruct (init_M_spec N _ _ _ _ _ _ _ I W2 ltac:(lia) C2 IA) as (W3 & C3 & -> & L3 & U3).
-  destruct (dc_entries_spec N _ _ _ _ E W3 ltac:(lia) C3) as (X4 & W4 & C4 & K4 & _).
-  pose proof (ext_length _ _ X4) as L4.
-  exists h1, cs'. split; [reflexivity|].
-  (* the per-submodel copies are observationally equal in h1 *)
-  assert (Bc : forall k l, In (k, VR l) (ocells od) -> (l < length h)%nat).
-  { intros k l Hin. eapply W; [exact Hd|]. unfold refs. apply in_flat_map. exists (k, VR l). simpl; auto. }
-  pose proof (copy_submodels_sim K _ _ _ _ Cs W Bc SC) as S1.
-  (* what the later steps (dict allocation, __init__, the other entries, the final update of the new instance) leave alone *)
-  assert (Keep : forall x, (x < length h1)%nat ->
-            nth_error (set_obj h4 (length h2) (mkObj (okind o') (dict_update (ocells o') es))) x = nth_error h1 x \/
-            (N <= x)%nat).
-  { intros x Lx. destruct (Nat.lt_ge_cases x N) as [Lt|Ge]; [left|right; exact Ge].
-    unfold set_obj. rewrite nth_error_upd_same.
-    destruct (Nat.eqb (length h2) x) eqn:Eq; [apply Nat.eqb_eq in Eq; lia|].
-    rewrite (ext_nth _ _ _ X4) by lia. rewrite U3 by exact Lt. unfold h2. apply nth_error_app_old. lia. }
-  split.
-  - unfold set_obj. rewrite nth_error_upd_same.
-    destruct (Nat.eqb (length h2) (length h1)) eqn:Eq; [apply Nat.eqb_eq in Eq; lia|].
-    rewrite (ext_nth _ _ _ X4) by lia.
-    (* __init__ does not touch the dict: it lies below the instance and is not reachable through a path the actions use...
-       this needs the action-level frame for a receiver that reaches old objects; it is established for the region below N
-       only *)
-    admit_dict_untouched.
-  - admit_sim_transfer.
-Abort.
